@@ -139,9 +139,9 @@ def handle (inp out : Sexp) : CaseResult :=
       | some ts => ts.any fun tk => match tk with | .integer _ => true | .float _ => true | _ => false
       | none => true)
   | .list [.atom "pos", .atom name, .atom kind, .str spelling, .atom stdA] =>
-    if QV.LexWire.isLexicalAssertCrash spelling out then
+    if QV.LexWire.isCrash out then
       { agree := false, specOk := false, nontrivial := true,
-        tags := [s!"pos-{name}", s!"kind-{kind}", "crash", QV.LexWire.kfLexicalAssert],
+        tags := [s!"pos-{name}", s!"kind-{kind}", "crash"],
         detail := s!"the parser panicked: spelling={repr spelling} impl={out}" }
     else
     match decodeOut out with
